@@ -51,6 +51,7 @@ type Act struct {
 	sends    *[]string
 	loopWrites map[*ssa.BasicBlock]*writeLog
 	frameMemo  *frameInfo
+	loopHead   map[*ssa.BasicBlock]*State
 	callPos  token.Pos
 }
 
@@ -281,6 +282,13 @@ func (a *Act) runBlocks(startBlock *ssa.BasicBlock, start *State, only map[*ssa.
 				dead = true
 				break
 			}
+			// every SSA register is a named constant: keeps terms small and E-matching effective
+			if v, ok := in.(ssa.Value); ok {
+				if r, ok := a.regs[v]; ok && r.S != "" && r.Tup == nil && !isAtom(r.S) && r.Sort != "Tuple" && r.Sort != "" {
+					r.S = a.vc.define("t", r.Sort, r.S)
+					a.regs[v] = r
+				}
+			}
 		}
 		_ = dead
 	}
@@ -377,6 +385,32 @@ func (a *Act) autoInvs(h *ssa.BasicBlock, st *State) [][2]string {
 	return out
 }
 
+// assertHints proves the loop's hints in the back-edge state (they are then available to the invariant proofs).
+func (a *Act) assertHints(h *ssa.BasicBlock, st *State) {
+	if a.con == nil || a.inlined {
+		return
+	}
+	n := a.loopOrd[h]
+	for i, c := range a.con.Hints {
+		if c.Loop != n {
+			continue
+		}
+		env := a.specEnv(st)
+		env.loop = h
+		env.pre = a.loopHead[h]
+		v, err := env.evalBool(c.Expr)
+		name := fmt.Sprintf("%s/hint loop#%d.%d", a.prefix, n, i+1)
+		if c.Label != "" {
+			name = fmt.Sprintf("%s/hint loop#%d.%s", a.prefix, n, c.Label)
+		}
+		if err != nil {
+			a.vc.oblige(name, "hint", a.props, c.Line, st.guard, "false", "contract error: "+err.Error()+" in: "+c.Text)
+			continue
+		}
+		a.vc.oblige(name, "hint", a.props, c.Line, st.guard, v, c.Text)
+	}
+}
+
 func (a *Act) assertInvs(h *ssa.BasicBlock, st *State, kind string) {
 	for _, ai := range a.autoInvs(h, st) {
 		name := fmt.Sprintf("%s/%s loop#%d.auto-%s", a.prefix, kind, a.loopOrd[h], ai[0])
@@ -405,6 +439,7 @@ func (a *Act) enterLoop(h *ssa.BasicBlock, st *State, ins []edgeIn) {
 	{
 		saved := a.writeLog
 		a.writeLog = wl
+		nAsserts, nDecls := len(vc.asserts), len(vc.decls)
 		vc.quiet++
 		scratch := st.clone()
 		scratch.guard = vc.fresh("gdisc", sBool)
@@ -417,6 +452,9 @@ func (a *Act) enterLoop(h *ssa.BasicBlock, st *State, ins []edgeIn) {
 		a.runBlocks(h, scratch, a.loopBody[h], h)
 		a.regs = savedRegs
 		vc.quiet--
+		// drop everything the discovery pass emitted: it only served to find the written set
+		vc.asserts = vc.asserts[:nAsserts]
+		vc.decls = vc.decls[:nDecls]
 		a.writeLog = saved
 		if saved != nil {
 			wl.mergeInto(saved)
@@ -473,6 +511,10 @@ func (a *Act) enterLoop(h *ssa.BasicBlock, st *State, ins []edgeIn) {
 	vc.assume("true", "(>= "+ntop+" "+st.top+")")
 	st.top = ntop
 	a.doPhis(h, st, ins, true)
+	if a.loopHead == nil {
+		a.loopHead = map[*ssa.BasicBlock]*State{}
+	}
+	a.loopHead[h] = st.clone()
 	// 4. assume invariant
 	for _, ai := range a.autoInvs(h, st) {
 		vc.assume(st.guard, ai[1])
